@@ -16,15 +16,23 @@ def primary_rule(c, prop):
     return rules[0] if rules else c["violations"][0]["rule"]
 
 
-def select(candidates, limit=24, per_rule=6):
-    """Shortest traces first, at most `per_rule` per rule id, `limit` in total."""
+def select(candidates, limit=24, per_rule=6, kf_probes=()):
+    """At most `per_rule` per rule id, `limit` in total. Within a rule: first the runs that fired
+    none of the cause probes any recorded finding is matched on (they cannot be attributed to a
+    finding, so they are certainly new -- a new defect must not be crowded out of the sample by
+    shorter runs of a recorded one), then the shortest traces."""
+    kf_probes = set(kf_probes)
+
+    def maybe_known(c):
+        return any((c.get("probes") or {}).get(p, 0) > 0 for p in kf_probes)
+
     by_rule = {}
     for c in candidates:
         for r in sorted(set(v["rule"] for v in c["violations"])):
             by_rule.setdefault(r, []).append(c)
     chosen, seen = [], set()
     for r in sorted(by_rule):
-        lst = sorted(by_rule[r], key=lambda c: (sum(len(t) for t in c["trace"]["threads"]), c["run"]))
+        lst = sorted(by_rule[r], key=lambda c: (maybe_known(c), sum(len(t) for t in c["trace"]["threads"]), c["run"]))
         k = 0
         for c in lst:
             key = (c["pop"], c["run"], c.get("build"))
@@ -38,7 +46,7 @@ def select(candidates, limit=24, per_rule=6):
             k += 1
             if k >= per_rule:
                 break
-    chosen.sort(key=lambda c: sum(len(t) for t in c["trace"]["threads"]))
+    chosen.sort(key=lambda c: (maybe_known(c), sum(len(t) for t in c["trace"]["threads"])))
     return chosen[:limit]
 
 
